@@ -74,6 +74,19 @@ Theorem C06_source_code_is_model : forall n weakly (d:dict Z cond) u, exists r s
   pres_map (map (map ac)) r = res_of (consistency n weakly (dict_values d)).
 Proof. exact tie_consistency. Qed.
 Print Assumptions C06_source_code_is_model.
+(* the key-based variant consistency_indices (also generated) returns the keys of the model's partition, and the two
+   generated variants agree on every base with distinct keys *)
+Theorem C06_source_key_variant_is_model : forall n D, NoDup (map kzc D) -> forall weakly u, exists r stats,
+  py_consistency_indices n (S (length D)) (Build_pybase (dict_of D)) u weakly = Return (r, stats) /\
+  r = res_of (option_map (map (map (fun a => Z.of_nat (key world a)))) (consistency n weakly D)).
+Proof. exact tie_consistency_indices. Qed.
+Print Assumptions C06_source_key_variant_is_model.
+Theorem C06_source_variants_agree : forall n D weakly u, NoDup (map kzc D) -> exists r1 st1 r2 st2,
+  py_consistency n (S (length D)) (Build_pybase (dict_of D)) u weakly = Return (r1, st1) /\
+  py_consistency_indices n (S (length D)) (Build_pybase (dict_of D)) u weakly = Return (r2, st2) /\
+  pres_map (map (map kzc)) r1 = r2.
+Proof. exact src_variants_agree. Qed.
+Print Assumptions C06_source_variants_agree.
 Theorem C06_source_refusal : forall n s weakly (d:dict Z cond) q u, dict_values d <> [] ->
   exists r st, py_consistency n (S (length d)) (Build_pybase d) u weakly = Return (r, st) /\
     (is_pfalse r = true <-> infer n s weakly (dict_values d) q = Refuse).
